@@ -2,6 +2,7 @@ package tsm1
 
 import (
 	"fmt"
+	"github.com/influxdata/influxdb/pkg/verifhook"
 	"math"
 	"os"
 	"sync"
@@ -739,6 +740,7 @@ func (cl *CacheLoader) Load(cache *Cache) error {
 					if err := f.Truncate(n); err != nil {
 						return err
 					}
+					verifhook.At("wal.recover.truncate", f.Name(), n)
 					break
 				}
 
